@@ -76,20 +76,10 @@ def neighbourhood(ctx, rule='A5n'):
     # range of neighbours stays inside [0, n_opts) and the search radius reaches the farthest option
     from ..rules import intcmp
     import copy
-    single = {}
-    for a_ in walk_fn(iv):
-        if isinstance(a_, ast.Assign) and len(a_.targets) == 1 and isinstance(a_.targets[0], ast.Name):
-            single.setdefault(a_.targets[0].id, []).append(a_.value)
-    single = {k: v[0] for k, v in single.items() if len(v) == 1}
-
-    def expand(e, depth=3):
-        """Local names that are assigned once are replaced by their definition (hoisted sub-expressions)."""
-        class S(ast.NodeTransformer):
-            def visit_Name(self, node):
-                if isinstance(node.ctx, ast.Load) and node.id in single and depth > 0:
-                    return expand(single[node.id], depth - 1)
-                return node
-        return S().visit(copy.deepcopy(e))
+    def expand(e, depth=4):
+        """Local names that are assigned once (also element-wise in a tuple assignment) are replaced by their
+        definition: hoisted sub-expressions and flag variables are read through."""
+        return expand_locals(iv, e, depth=depth)
 
     dist_loops = [x for x in ast.walk(iv.node) if isinstance(x, ast.For) and isinstance(x.iter, ast.Call) and
                   isinstance(x.iter.func, ast.Name) and x.iter.func.id == 'range' and isinstance(x.target, ast.Name)]
